@@ -99,6 +99,7 @@ def run(tier):
              min_states=100),
     ]
     core.run_tlc_jobs(ck, jobs)
+    core.l2_models(ck, th, liveness=True)
 
     seed = ck.seed
     n = 300 if th else 100
@@ -121,6 +122,7 @@ def run(tier):
                            'requests, malformed bodies and application disconnect calls')
     plans.append(pp)
     done = core.conform(ck, plans)
+    core.l2_conform(ck, seed, 300 if th else 60)
     # ---- completion, gateway protocol, status set ------------------------------------------
     nreq = 0
     for p, traces, facts, v in done:
